@@ -1,7 +1,16 @@
-use rusty_parser::ForLoop;
+use rusty_common::AtPos;
+use rusty_parser::{ExpressionPos, ExpressionType, ForLoop, HasExpressionType, TypeQualifier};
 
 use crate::converter::common::{Convertible, ConvertibleIn, ExprContext};
-use crate::core::{LintErrorPos, LinterContext};
+use crate::core::{LintError, LintErrorPos, LinterContext};
+
+/// The counter, the bounds and the step of a FOR loop must be numeric.
+fn ensure_numeric(expr_pos: &ExpressionPos) -> Result<(), LintErrorPos> {
+    match expr_pos.expression_type() {
+        ExpressionType::BuiltIn(q) if q != TypeQualifier::DollarString => Ok(()),
+        _ => Err(LintError::TypeMismatch.at(expr_pos)),
+    }
+}
 
 impl Convertible for ForLoop {
     fn convert(self, ctx: &mut LinterContext) -> Result<Self, LintErrorPos> {
@@ -11,6 +20,12 @@ impl Convertible for ForLoop {
         let lower_bound = self.lower_bound.convert_in_default(ctx)?;
         let upper_bound = self.upper_bound.convert_in_default(ctx)?;
         let step = self.step.convert_in_default(ctx)?;
+        ensure_numeric(&variable_name)?;
+        ensure_numeric(&lower_bound)?;
+        ensure_numeric(&upper_bound)?;
+        if let Some(step) = &step {
+            ensure_numeric(step)?;
+        }
         let statements = self.statements.convert(ctx)?;
         let next_counter = self.next_counter.convert_in(ctx, ExprContext::Assignment)?;
         Ok(Self {
@@ -21,5 +36,23 @@ impl Convertible for ForLoop {
             statements,
             next_counter,
         })
+    }
+}
+
+#[cfg(test)]
+mod tests {
+    use crate::assert_linter_err;
+    use crate::core::LintError;
+
+    #[test]
+    fn bounds_and_step_must_be_numeric() {
+        assert_linter_err!("FOR I = \"a\" TO 3\nNEXT", LintError::TypeMismatch, 1, 9);
+        assert_linter_err!("FOR I = 1 TO \"b\"\nNEXT", LintError::TypeMismatch, 1, 14);
+        assert_linter_err!("FOR I = 1 TO 3 STEP \"c\"\nNEXT", LintError::TypeMismatch, 1, 21);
+    }
+
+    #[test]
+    fn counter_must_be_numeric() {
+        assert_linter_err!("FOR I$ = 1 TO 3\nNEXT", LintError::TypeMismatch, 1, 5);
     }
 }
